@@ -45,8 +45,11 @@ def fixed_alphabet(tier):
 def layout_cases(tier):
     A = fixed_alphabet(tier)
     out = [(U(64),), (I(64),), (F64,), (Arr(U(8), 8),), (Arr(I(16), 4),), (Arr(F32, 2),)]
-    for n in (1, 2, 3):
-        alpha = A if n < 3 else ([U(1), U(3), I(12), F32, en(3, "b"), St(U(3), I(6)), Arr(U(4), 2), I(8)] if tier == "quick" else A[:: 2])
+    small = [U(1), U(3), I(12), F32, en(3, "b"), St(U(3), I(6)), Arr(U(4), 2), I(8)]
+    for n in (1, 2, 3, 4):
+        if n == 4 and tier == "quick":
+            continue
+        alpha = A if n < 4 else small
         for c in itertools.product(alpha, repeat=n):
             if sum(shapes.fixed_width(t) for t in c) <= 64:
                 out.append(c)
@@ -500,7 +503,7 @@ def run(tier):
     for s in pmap(make_worker(tier), chunks(list(enumerate(cases)), 20)):
         r.stats.merge(s)
     r.rule = (
-        "states = CAN schemas: every 1..3-field fixed-size message <= 64 bits over {u/i widths, f32, f64, enums (both edges of a width), nested structs, arrays of scalars/structs}; every subset of byte-aligned "
+        "states = CAN schemas: every 1..3-field (thorough: 4 over a reduced alphabet) fixed-size message <= 64 bits over {u/i widths, f32, f64, enums (both edges of a width), nested structs, arrays of scalars/structs}; every subset of byte-aligned "
         "fields marked big-endian; mux on every subset of the payload fields with counts 1,2,4; mux with the selector inside a nested struct and/or names beyond the 32-character DBC symbol limit; options (byte order, mux) declared for an array field, incl. arrays of arrays, holding for every element; units at every nesting level; 1..3 bindings over buses {default,b1,b2}, renamed or not, ids {0,1,100,2047}. "
         "Each is generated by the real fcp_dbc generator; oracle (1) own DBC reader vs reference layout (id, name, length, per-leaf start/width/sign/float/byte order/unit/mux) + geometry; "
         "(2) cantools decodes every reference-packed boundary frame to the original values. non-trivial = messages with >= 2 leaves."
